@@ -450,7 +450,7 @@ def run_harness(unit, variant, h, tier='quick', keep=False):
         # (--trace on the vacuity canary alone can cost minutes of JSON for large symbolic objects)
         want = [o for o in failed if o.get('name')][:3]
         cb2 = cb + ['--json-ui', '--trace'] + sum([['--property', o['name']] for o in want], [])
-        rc2, so2, se2, dt2 = sh(cb2, timeout=min(tmo, 900), mem_mb=int(h['mem'] or 16000))
+        rc2, so2, se2, dt2 = sh(cb2, timeout=min(tmo, 300), mem_mb=int(h['mem'] or 16000))
         if rc2 != -999:
             res2, _, _ = cbmc_results(so2)
             for p in (res2 or []):
@@ -544,12 +544,14 @@ def flatten_value(v):
 
 def write_replay(prop, r, o, native):
     os.makedirs(os.path.join(ROOT, 'replays'), exist_ok=True)
-    name = '%s-%s-%s-%s' % (prop, r['unit'], r['variant'], re.sub(r'[^A-Za-z0-9_.]', '_', o.get('name') or 'obligation'))
+    name = '%s-%s-%s-%s' % (prop, r['unit'], re.sub(r'[^A-Za-z0-9_.]', '_', r['variant'])[:60], re.sub(r'[^A-Za-z0-9_.]', '_', o.get('name') or 'obligation'))
+    if o.get('config'):
+        name += '-cfg_' + re.sub(r'[^A-Za-z0-9]+', '_', '_'.join('%s%s' % (k[4:], v) for k, v in sorted(o['config'].items())))
     path = os.path.join(ROOT, 'replays', name + '.json')
     tr = o.get('trace') or []
     doc = {'property': prop, 'unit': r['unit'], 'variant': r['variant'], 'harness': r['harness'],
            'failed_obligation': {k: o.get(k) for k in ('name', 'desc', 'file', 'line', 'function')},
-           'inputs': trace_inputs(o, r['harness']), 'native_replay': native,
+           'inputs': trace_inputs(o, r['harness']), 'configuration': o.get('config'), 'native_replay': native,
            'cbmc_cmd': r.get('cmd'),
            'cbmc_trace_tail': [{k: s.get(k) for k in ('stepType', 'lhs', 'value', 'sourceLocation', 'reason') if k in s} for s in tr[-40:]]}
     json.dump(doc, open(path, 'w'), indent=1, default=str)
@@ -675,12 +677,18 @@ def check(prop, tier, seed=0):
         seen_known.add(key)
         print('KNOWN-FINDING: property=%s %s' % (prop, f['text']))
     reported = set()
+    per_base = {}
     vio_out = []
     for r, o in violations:
         key = (r['unit'], r['harness'], o.get('file'), o.get('line'), o.get('desc'))
         if key in reported:
             continue
         reported.add(key)
+        base = (r['unit'], r['harness'], o.get('file'), o.get('line'))
+        per_base[base] = per_base.get(base, 0) + 1
+        if per_base[base] > 3:
+            rc = 1
+            continue        # same obligation refuted on further configurations: three replays per obligation are enough
         nat = native_replay(r['_unit'], r['_variant'], r, o)
         path = write_replay(prop, r, o, nat)
         tail = '' if nat.get('reproduced') else ' no-failing-input-found'
